@@ -22,8 +22,8 @@ theorem inv_openFt {v : Variant} {w : World} (h : Inv v w) (i : Nat) (hi : i ∈
       split
       · rename_i hcond
         refine inv_of_same h rfl rfl rfl ?_
-        obtain ⟨k1, k2, k3, k4, k5, k6, k7⟩ := h.counters
-        refine ⟨k1, k2, k3, k4, ?_, k6, k7⟩
+        obtain ⟨k1, k2, k3, k4, k5, k6, k7, k8⟩ := h.counters
+        refine ⟨k1, k2, k3, k4, ?_, k6, k7, k8⟩
         intro hv; simp [hv] at hcond
       · exact h
     apply inv_modConn_live h1 i _ (by split <;> exact hi)
@@ -61,6 +61,71 @@ theorem inv_closeOthers {v : Variant} {w : World} (h : Inv v w) (i : Nat) (l : L
   | none => rfl
   | some c => simp only [modConn_list]; split <;> rfl
 
+theorem liveOpen_of {v : Variant} {w : World} (h : Inv v w) (i : Nat) (ho : isOpen w i = true) :
+    LiveOpen v w i := ⟨h, listed_of_open h i ho, ho⟩
+
+/-- `rfbDisableExtension` on a listed client: the data is freed, the node unlinked (and, with the
+fix, freed) -/
+theorem inv_disableExt {v : Variant} {w : World} (h : Inv v w) (i : Nat) (hi : i ∈ w.list) :
+    Inv v (disableExt v w i) := by
+  unfold disableExt
+  cases hc : w.conns[i]? with
+  | none => exact h
+  | some c =>
+    simp only
+    split
+    · have h1 : Inv v (modConn w i fun c => { c with exts := c.exts - 1, extData := false, ext1On := false }) := by
+        apply inv_modConn h
+        · intro c _ _ hl
+          exact ⟨hl.1, hl.2.1, hl.2.2.1, hl.2.2.2.1, fun hs => ⟨(hl.2.2.2.2 hs).1, (hl.2.2.2.2 hs).2.1, rfl⟩⟩
+        · intro c _ hn; exact absurd hi hn
+        · intro c _; simp
+      refine inv_of_same h1 rfl rfl rfl ?_
+      obtain ⟨k1, k2, k3, k4, k5, k6, k7, k8⟩ := h.counters
+      refine ⟨k1, k2, k3, k4, k5, k6, k7, ?_⟩
+      intro hv; simp [hv, k8 hv]
+    · exact h
+
+theorem inv_extInit {v : Variant} {w : World} (h : Inv v w) (i : Nat) (hi : i ∈ w.list) :
+    Inv v (extInit v w i) := by
+  unfold extInit
+  cases w.conns[i]? with
+  | none => exact h
+  | some c =>
+    simp only
+    split
+    · split
+      · exact inv_disableExt (inv_emit (inv_emit h _) _) i hi
+      · exact inv_emit h _
+    · exact h
+
+theorem inv_enableExt {v : Variant} {w : World} (h : Inv v w) (i : Nat) (ho : isOpen w i = true) :
+    Inv v (enableExt w i) := by
+  unfold enableExt
+  cases hc : w.conns[i]? with
+  | none => exact h
+  | some c =>
+    simp only
+    split
+    · exact h
+    · exact inv_emit (liveOpen_modConn (liveOpen_of h i ho) _ (by intro c; simp)).1 _
+
+@[simp] theorem disableExt_list (v : Variant) (w : World) (i : Nat) : (disableExt v w i).list = w.list := by
+  unfold disableExt
+  cases w.conns[i]? with
+  | none => rfl
+  | some c => simp only; split <;> rfl
+
+@[simp] theorem extInit_list (v : Variant) (w : World) (i : Nat) : (extInit v w i).list = w.list := by
+  unfold extInit
+  cases w.conns[i]? with
+  | none => rfl
+  | some c =>
+    simp only
+    split
+    · split <;> simp
+    · rfl
+
 theorem inv_setPtr {v : Variant} {w : World} (h : Inv v w) (o : Option Nat)
     (ho : ∀ j, o = some j → j ∈ w.list) : Inv v { w with ptrOwner := o } :=
   ⟨h.nodup, h.bound, h.live, h.dead, h.counters, h.refs, h.scr, h.main, ho⟩
@@ -77,12 +142,7 @@ theorem inv_msgEffect {v : Variant} {w : World} (h : Inv v w) (i : Nat) (m : Msg
     · exact inv_closeClient h i
   | init sh =>
     simp only [msgEffect]
-    have h0 : Inv v (match w.conns[i]? with
-        | some c => if c.exts > 0 then emit w (.xinit i) else w
-        | none => w) := by
-      cases w.conns[i]? with
-      | none => exact h
-      | some c => simp only; split; exact inv_emit h _; exact h
+    have h0 : Inv v (extInit v w i) := inv_extInit h i hi
     have h1 := inv_modConn_proto h0 i (fun c => { c with st := .normal }) (by intro c; simp)
     split
     · exact h1
@@ -128,12 +188,7 @@ theorem msgEffect_list (v : Variant) (w : World) (i : Nat) (m : Msg) :
   | auth ok => simp only [msgEffect]; split <;> simp
   | init sh =>
     simp only [msgEffect]
-    have h0 : (match w.conns[i]? with
-        | some c => if c.exts > 0 then emit w (.xinit i) else w
-        | none => w).list = w.list := by
-      cases w.conns[i]? with
-      | none => rfl
-      | some c => simp only; split <;> rfl
+    have h0 : (extInit v w i).list = w.list := extInit_list v w i
     split
     · rw [modConn_list]; exact h0
     · rw [closeOthers_list, modConn_list]; exact h0
@@ -353,8 +408,8 @@ theorem inv_shutdown {v : Variant} {w : World} (h : Inv v w) : Inv v (shutdown v
   rw [shutdown_eq]
   have h1 := inv_sweep (shutOne v) (fun w i => inv_shutOne w i) w h w.list
   refine inv_of_same h1 rfl rfl rfl ?_
-  obtain ⟨k1, k2, k3, k4, k5, k6, k7⟩ := h1.counters
-  refine ⟨k1, ?_, k3, k4, k5, k6, k7⟩
+  obtain ⟨k1, k2, k3, k4, k5, k6, k7, k8⟩ := h1.counters
+  refine ⟨k1, ?_, k3, k4, k5, k6, k7, k8⟩
   intro hv
   have := sweep_all_gone hv (shutOne v) (fun w i => inv_shutOne w i) (fun w i => shutOne_list w i) h
   simp [this, k2 hv]
@@ -363,8 +418,8 @@ theorem inv_cleanup {v : Variant} {w : World} (h : Inv v w) : Inv v (cleanup v w
   rw [cleanup_eq]
   have h1 := inv_sweep (cleanOne v) (fun w i => inv_cleanOne w i) w h w.list
   refine inv_of_same h1 rfl rfl rfl ?_
-  obtain ⟨k1, k2, k3, k4, k5, k6, k7⟩ := h1.counters
-  refine ⟨k1, ?_, k3, k4, k5, k6, k7⟩
+  obtain ⟨k1, k2, k3, k4, k5, k6, k7, k8⟩ := h1.counters
+  refine ⟨k1, ?_, k3, k4, k5, k6, k7, k8⟩
   intro hv
   have := sweep_all_gone hv (cleanOne v) (fun w i => inv_cleanOne w i) (fun w i => cleanOne_list w i) h
   simp [this, k2 hv]
@@ -410,6 +465,19 @@ theorem inv_step {v : Variant} {w : World} (h : Inv v w) (op : Op) : Inv v (step
   | goneKick i k => exact inv_modConn_proto h i _ (by intro c; simp)
   | ext => exact inv_of_same h rfl rfl rfl h.counters
   | pw => exact inv_of_same h rfl rfl rfl h.counters
+  | extRefuse i => exact inv_modConn_proto h i _ (by intro c; simp)
+  | extDrop i =>
+    simp only [step]; split
+    · rename_i hk
+      simp only [Bool.and_eq_true] at hk
+      exact inv_disableExt (inv_emit h _) i (listed_of_open h i hk.1.2)
+    · exact h
+  | extAdd i =>
+    simp only [step]; split
+    · rename_i hk
+      simp only [Bool.and_eq_true] at hk
+      exact inv_enableExt h i hk.2
+    · exact h
   | shutdown => exact inv_shutdown h
   | cleanup => exact inv_cleanup h
 
